@@ -66,7 +66,9 @@ Section Commit.
 Variable univ : list key.
 Variable tr : iobj -> (N -> filt -> list sobj) -> list dep * list (key * N).
 Variable owner : key -> key.
-Hypothesis H_owned : forall i phi k v, In (k, v) (snd (tr i phi)) -> owner k = fst i.
+(* the inputs the property speaks about (e.g. "object of kind K"); everything put into P must be valid *)
+Variable valid : iobj -> Prop.
+Hypothesis H_owned : forall i phi k v, valid i -> In (k, v) (snd (tr i phi)) -> owner k = fst i.
 
 Definition Dinv (D : dstate) : Prop :=
   (forall a ks k, d_maps D a = Some ks -> In k ks -> owner k = a) /\
@@ -97,24 +99,25 @@ Proof.
 Qed.
 
 Lemma rec_ok_same S D D' b oi :
-  Dinv D -> same_rec b D D' -> (forall i, oi = Some i -> fst i = b) -> rec_ok S D b oi -> rec_ok S D' b oi.
+  Dinv D -> same_rec b D D' -> (forall i, oi = Some i -> fst i = b /\ valid i) -> rec_ok S D b oi -> rec_ok S D' b oi.
 Proof.
   intros (Hown&_) (H1&H2&H3) Hk Hr. destruct oi as [i|]; cbn in *.
   - destruct Hr as (R1&R2&R3). rewrite H1, H2. repeat split; try assumption.
     intros k Hin. rewrite H3; [apply R3; exact Hin|].
-    apply gkeys_In in Hin. destruct Hin as [v Hv]. rewrite (H_owned _ _ _ _ Hv). apply Hk. reflexivity.
+    apply gkeys_In in Hin. destruct Hin as [v Hv]. destruct (Hk i eq_refl) as [Hk1 Hk2].
+    rewrite (H_owned _ _ _ _ Hk2 Hv). exact Hk1.
   - intros ks k Hm Hin. rewrite H2 in Hm. rewrite H3; [eapply Hr; eauto|]. eapply Hown; eauto.
 Qed.
 
 (* ---- Add/Update branch *)
 Lemma commit_upd_spec S D evs i :
   let r := tr i (fetcher univ S) in
-  Dinv D -> (forall d, In d (fst r) -> In (d_id d) (d_cols D)) ->
+  Dinv D -> valid i -> (forall d, In d (fst r) -> In (d_id d) (d_cols D)) ->
   let D' := fst (commit_upd (D, evs) i r) in
   Dinv D' /\ rec_ok S D' (fst i) (Some i) /\ (forall b, b <> fst i -> same_rec b D D') /\
   d_cols D' = d_cols D /\ d_handlers D' = d_handlers D.
 Proof.
-  intros r (Hown&Hout&Hrev&Hcols) Hc.
+  intros r (Hown&Hout&Hrev&Hcols) Hvalid Hc.
   unfold commit_upd. cbn zeta. cbn [fst snd].
   set (a := fst i).
   set (D1 := dep_update D a (fst r)).
@@ -297,10 +300,11 @@ Definition cols_ok (S : N -> coll) (items : list item) (D : dstate) : Prop :=
 
 Lemma fold_commit_spec S D : forall items D0 evs la,
   Dinv D0 -> St S D D0 la -> cols_ok S items D0 ->
+  (forall i, In (ItemUpd i) items -> valid i) -> (forall a i, la a = Some (ItemUpd i) -> valid i) ->
   let D' := fst (fold_left (commit S) items (D0, evs)) in
   Dinv D' /\ St S D D' (lastf items la) /\ d_handlers D' = d_handlers D0.
 Proof.
-  induction items as [|it items IH]; intros D0 evs la Hinv Hst Hc; cbn [fold_left lastf].
+  induction items as [|it items IH]; intros D0 evs la Hinv Hst Hc Hiv Hlv; cbn [fold_left lastf].
   - auto.
   - destruct (commit S (D0, evs) it) as [D1 evs1] eqn:Ec.
     assert (Hone : Dinv D1 /\ rec_ok S D1 (item_key it)
@@ -311,20 +315,24 @@ Proof.
       - pose proof (commit_del_spec S D0 evs a Hinv) as H. rewrite Ec in H. exact H.
       - assert (Hci : forall d, In d (fst (tr i (fetcher univ S))) -> In (d_id d) (d_cols D0)).
         { intros d Hd. eapply Hc; [left; reflexivity|exact Hd]. }
-        pose proof (commit_upd_spec S D0 evs i Hinv Hci) as H. rewrite Ec in H. exact H. }
+        pose proof (commit_upd_spec S D0 evs i Hinv (Hiv i (or_introl eq_refl)) Hci) as H. rewrite Ec in H. exact H. }
     destruct Hone as (Hinv1&Hrec&Hoth&Hcl&Hh).
     assert (Hst1 : St S D D1 (fun a => if N.eqb (item_key it) a then Some it else la a)).
     { intros a. destruct (N.eqb (item_key it) a) eqn:E.
       - apply N.eqb_eq in E. subst a. destruct it; [exact Hrec|intros _; exact Hrec].
       - apply N.eqb_neq in E. assert (Hs : same_rec a D0 D1) by (apply Hoth; congruence).
-        specialize (Hst a). destruct (la a) as [[a0|i0]|].
+        specialize (Hst a). destruct (la a) as [[a0|i0]|] eqn:Ela.
         + apply (rec_ok_same S D0 D1 a None Hinv Hs); [intros i1 H1; discriminate|exact Hst].
         + intros Hk. apply (rec_ok_same S D0 D1 a (Some i0) Hinv Hs); [|exact (Hst Hk)].
-          intros i1 H1. injection H1 as <-. exact Hk.
+          intros i1 H1. injection H1 as <-. split; [exact Hk|]. apply (Hlv a). exact Ela.
         + eapply same_rec_trans; eauto. }
     assert (Hc1 : cols_ok S items D1).
     { intros i d Hi Hd. rewrite Hcl. eapply Hc; [right; exact Hi|exact Hd]. }
-    destruct (IH D1 evs1 _ Hinv1 Hst1 Hc1) as (R1&R2&R3).
+    assert (Hiv1 : forall i, In (ItemUpd i) items -> valid i) by (intros i Hi; apply Hiv; right; exact Hi).
+    assert (Hlv1 : forall a i, (if N.eqb (item_key it) a then Some it else la a) = Some (ItemUpd i) -> valid i).
+    { intros a i. destruct (N.eqb (item_key it) a); [|apply Hlv].
+      intros H. inversion H; subst. apply Hiv. left. reflexivity. }
+    destruct (IH D1 evs1 _ Hinv1 Hst1 Hc1 Hiv1 Hlv1) as (R1&R2&R3).
     split; [exact R1|split; [exact R2|congruence]].
 Qed.
 
@@ -421,16 +429,17 @@ Lemma distribute_fields D evs :
 Proof. unfold distribute. destruct evs; cbn; repeat split; reflexivity. Qed.
 
 Lemma handle_items_spec S D items :
-  Dinv D ->
+  Dinv D -> (forall i, In (ItemUpd i) items -> valid i) ->
   let D' := handle_items univ tr S D items in
   Dinv D' /\ St S D D' (lastf items (fun _ => None)).
 Proof.
-  intros Hinv. cbn zeta. rewrite handle_items_unfold.
+  intros Hinv Hiv. cbn zeta. rewrite handle_items_unfold.
   pose proof (Dinv_phase1 S D items Hinv) as Hinv1.
   destruct (phase1_spec S items D) as (a1&a2&a3&a4&a5&a6&a7&a8&a9).
   assert (Hst0 : St S D (phase1 S D items) (fun _ => None)).
   { intros a. unfold same_rec. rewrite a1, a2, a3. auto. }
-  destruct (fold_commit_spec S D items (phase1 S D items) [] (fun _ => None) Hinv1 Hst0 a9) as (R1&R2&_).
+  destruct (fold_commit_spec S D items (phase1 S D items) [] (fun _ => None) Hinv1 Hst0 a9 Hiv) as (R1&R2&_).
+  { intros a i H. discriminate. }
   set (Df := fst (fold_left (commit S) items (phase1 S D items, []))) in *.
   set (ev := snd (fold_left (commit S) items (phase1 S D items, []))).
   destruct (distribute_fields Df ev) as (d1&d2&d3&d4&d5&d6&d7).
